@@ -185,7 +185,9 @@ func (e *Engine) prepareSuffix() (comp string) {
 
 	// When the completion has a size of 1, don't remove anything:
 	// stacked flags, for example, will never be inserted otherwise.
-	if len(comp) > 0 && len(comp[prefix:]) <= 1 {
+	// (With case-insensitive matching the candidate can be shorter in bytes
+	// than the prefix it matched, so lengths are compared, not sliced.)
+	if len(comp) > 0 && len(comp)-prefix <= 1 {
 		return
 	}
 
